@@ -131,6 +131,8 @@ def build_cases(ctx):
     for c in corpus:
         if c.get("kind") == "history":
             cases.append({**c, "src": "corpus"})
+            if c.get("entry") == "cli":       # the hand-picked CLI vectors also go through the real executable
+                cases.append({**c, "entry": "cli-subprocess", "src": "corpus"})
     # (b) exhaustive single-request sweep over a few base documents
     sweep_docs = [c["text"] for c in corpus if c.get("kind") == "base-doc"]
     i = 0
@@ -164,7 +166,8 @@ def build_cases(ctx):
         top, other, meta = H.own_keys(t)
         rq = H.gen_request(rng, top, other, meta)
         rq["mutations"] = None
-        cases.append({"kind": "history", "entry": "cli", "text": t, "requests": with_final_omit([rq]), "src": "cli"})
+        entry = "cli-subprocess" if j < ctx.budget(6, 48) else "cli"     # a few through the real executable, the bulk in-process
+        cases.append({"kind": "history", "entry": entry, "text": t, "requests": with_final_omit([rq]), "src": "cli"})
     # (e) correspondence-only histories (keys / values outside the property's domain: META, META., block keys, odd sentinels)
     for j in range(n_corr):
         t = H.gen_text_doc(seed, j % 80)
@@ -270,25 +273,18 @@ def run(ctx: vlib.Ctx):
             else:
                 ctx.failures.append({"case": {k: v for k, v in case.items() if k != "src"}, **{k: v for k, v in o.items() if k != "status"}})
 
-    # -- CLI while F28 is open: the transcription of the CLI loop (`cliApply`) agrees with the CLI's AST --
-    cli_cases = [c for c in cases if c.get("entry") == "cli"][: ctx.budget(150, 1500)]
-    if cli_cases and any(f["cls"].startswith("kf_cli") for f in active):
-        pairs = vlib.pmap(cli_ast, cli_cases)
-        rq2 = [{"op": "cli", "doc": p["start"], "changes": [[k, H.enc_jval(v)] for k, v in c["requests"][0]["changes"].items()]}
-               for c, p in zip(cli_cases, pairs) if p and "exc" not in p]
-        rep2 = drv.batch_par(rq2)
-        k = 0
-        for c, p in zip(cli_cases, pairs):
-            if not p or "exc" in p:
-                ctx.count("corr:cli_skipped")
-                continue
-            rep = rep2[k]
-            k += 1
-            ctx.count("corr:cli")
-            if "unsupported" not in rep and _norm(rep["doc"]) != _norm(p["doc"]) and len(ctx.corr_disagreements) < 20:
-                ctx.corr_disagreements.append({"case": {"text": c["text"], "changes": c["requests"][0]["changes"]},
-                                               "view": "AST after the CLI --changes loop", "model": rep["doc"], "impl": p["doc"]})
-
+    # -- CLI: same `_apply_changes` as the MCP tool => byte-identical files for the same history ----------
+    cli_idx = [ci for ci, c in enumerate(cases) if c.get("entry") in ("cli", "cli-subprocess")]
+    twins = vlib.pmap(H.work_cli_twin, [cases[ci] for ci in cli_idx])
+    for ci, tw in zip(cli_idx, twins):
+        o = results[ci]["oracle"]
+        ctx.count("corr:cli_vs_mcp")
+        if o["status"] == "ok" and tw["status"] == "ok" and o["final"] != tw["final"] and len(ctx.corr_disagreements) < 20:
+            ctx.corr_disagreements.append({"case": {"text": cases[ci]["text"], "requests": cases[ci]["requests"]},
+                                           "view": "file bytes after the same history through the CLI and through the MCP tool",
+                                           "model": tw["final"], "impl": o["final"]})
+        elif o["status"] != tw["status"]:
+            ctx.count("corr:cli_vs_mcp_status_differs")
     ctx.extra["phase_seconds"]["apply_correspondence"] = round(time.time() - t2, 1)
     t3 = time.time()
     # -- constructed ASTs: emit correspondence, Absent at every site, prune spec -------------------
@@ -319,6 +315,14 @@ def run(ctx: vlib.Ctx):
             ctx.corr_disagreements.append({"case": {"doc": D}, "view": "text of emit(doc)", "model": rep["text"], "impl": r["text"]})
     # Absent at every emission site of every document
     abs_cases = []
+    cdir = vlib.VERIF / "corpus" / "C18"
+    for p in sorted(cdir.glob("*.json")) if cdir.exists() else []:
+        try:
+            c = json.loads(p.read_text())
+            if c.get("kind") == "absent":
+                abs_cases.append({"kind": "absent", "doc": c["doc"], "pos": c["pos"]})
+        except Exception:
+            pass
     for D in docs[: ctx.budget(120, 1500)]:
         for pos in H.positions(D):
             abs_cases.append({"kind": "absent", "doc": D, "pos": list(pos)})
@@ -359,37 +363,10 @@ def run(ctx: vlib.Ctx):
                                "Gen/AbsentSites (every emit_value/emit_assignment call of emitter.py with its is_absent guard verdict)"]
     ctx.trusted = ["Lean 4.33.0 kernel; axioms per theorem in coverage.theorems",
                    "tools/gen/changes.py (syntactic extraction from write.py, cli/main.py, emitter.py)",
-                   "correspondence: tools/props/c18.py + tools/harness/changes_h.py (differential: AST after _apply_changes/_apply_mutations, text of emit, pruneDoc)",
+                   "correspondence: tools/props/c18.py + tools/harness/changes_h.py (differential: AST after _apply_changes/_apply_mutations, text of emit, pruneDoc, CLI vs MCP file bytes)",
                    "modelled, not verified: control flow of _apply_changes/_apply_mutations/_normalize_value_for_ast/emit*; the scalar renderer is an abstract parameter (text engine)",
                    "oracle uses the real parser to read the file back and to find the line of each top-level node (boundaries validated against the text)"]
     ctx.assumptions = ["request dicts have unique keys (Python dict / json.loads)",
                        "documents are drawn from shapes whose canonical text re-reads to itself today (C01-C04 findings F1-F17 excluded by construction, checked per case)",
                        "emit is called with format_options=None, as every tool calls it",
                        "the view identifies an inline map with the sequence of its pairs (the canonical text `k::v,k2::v2` carries no grouping)"]
-
-
-def cli_ast(case):
-    """AST right after the real CLI `--changes` loop body (the loop is re-executed here on the parsed
-    document exactly as cli/main.py does it: same statements, extracted from the source with ast)."""
-    import ast as pyast
-    from octave_mcp.core.ast_nodes import Assignment
-    from octave_mcp.core.parser import parse
-    try:
-        tree = vlib.source_ast(C)
-        fn = vlib.find_def(tree, "write")
-        loop = None
-        for n in pyast.walk(fn):
-            if isinstance(n, pyast.For) and isinstance(n.iter, pyast.Call) and getattr(n.iter.func, "attr", None) == "items":
-                loop = n
-                break
-        if loop is None:
-            return None
-        doc = parse(case["text"])
-        start = H.enc_doc(doc)
-        env = {"doc": doc, "changes_dict": copy.deepcopy(case["requests"][0]["changes"]), "Assignment": Assignment}
-        mod = pyast.Module(body=[loop], type_ignores=[])
-        pyast.fix_missing_locations(mod)
-        exec(compile(mod, "<cli-loop>", "exec"), env)
-        return {"start": start, "doc": H.enc_doc(env["doc"], raw=True)}
-    except Exception as e:
-        return {"exc": f"{type(e).__name__}: {e}"[:200]}
